@@ -334,26 +334,75 @@ IX_PREDS = {
     "neg": [[("ARG0", "e", False), ("ARG1", "h", False)]],
     "empty_args": [[]],
 }
-_SEMI = None
+_SEMIS = {}
 
 
-def ix_semi():
-    global _SEMI
-    if _SEMI is None:
-        preds = {p: {"synopses": [{"roles": [{"name": r, "value": v, "optional": o} for r, v, o in syn]}
-                                  for syn in syns]} for p, syns in IX_PREDS.items()}
+def preds_key(preds):
+    return json.dumps(preds, sort_keys=True)
+
+
+def ix_semi(preds=None):
+    """a SemI object for the synopsis table `preds` (default IX_PREDS); cached per table."""
+    preds = IX_PREDS if preds is None else preds
+    key = preds_key(preds)
+    if key not in _SEMIS:
+        if len(_SEMIS) > 64:
+            _SEMIS.clear()
+        pd = {p: {"synopses": [{"roles": [{"name": r, "value": v, "optional": bool(o)} for r, v, o in syn]}
+                               for syn in syns]} for p, syns in preds.items()}
         with warnings.catch_warnings():
             warnings.simplefilter("ignore")
-            _SEMI = dsemi.SemI(variables=IX_VARS, properties=IX_PROPS,
-                               roles={r: {"value": v} for r, v in IX_ROLES.items()}, predicates=preds)
-    return _SEMI
+            _SEMIS[key] = dsemi.SemI(variables=IX_VARS, properties=IX_PROPS,
+                                     roles={r: {"value": v} for r, v in IX_ROLES.items()}, predicates=pd)
+    return _SEMIS[key]
 
 
-def gen_ix_mrs(rng):
+IX_VOCAB = ["_rain_v_1", "_dog_n_1", "_bark_v_1", "_chase_v_1", "_the_q", "named", "card", "neg"]
+IX_ARGROLES = ["ARG1", "ARG2", "ARG3", "RSTR", "BODY", "L-INDEX", "R-INDEX"]
+
+
+def gen_ix_preds(rng):
+    """a fresh synopsis table over the fixed vocabulary IX_VOCAB: role names, order, sorts, optionality and the
+    presence/position/optionality of CARG vary from call to call, so consecutive SEM-Is disagree."""
+    preds = {}
+    for p in IX_VOCAB:
+        syns = []
+        for _ in range(rng.choice([1, 1, 1, 2])):
+            k = rng.choice([0, 1, 1, 2, 2, 3])
+            names = ["ARG0"] + rng.sample(IX_ARGROLES, k)
+            if rng.random() < 0.35:
+                rng.shuffle(names)
+            roles = [[r, rng.choice(["e", "x", "x", "h", "e", "i", "u", "p"]), False] for r in names]
+            for r in reversed(roles[1:]):
+                if rng.random() < 0.3:
+                    r[2] = True
+                else:
+                    break
+            c = rng.random()
+            if c < 0.45:
+                pos = rng.randrange(len(roles) + 1)
+                copt = rng.random() < 0.3
+                # an optional role may only be followed by optional roles (positional reading)
+                if copt and any(not r[2] for r in roles[pos:]):
+                    copt = False
+                if any(r[2] for r in roles[:pos]):
+                    copt = True
+                roles.insert(pos, ["CARG", "string", copt])
+            syns.append(roles)
+        preds[p] = syns
+    return preds
+
+
+IX_SUBSORT = {"u": "exh", "i": "ex", "p": "xh", "e": "e", "x": "x", "h": "h"}
+
+
+def gen_ix_mrs(rng, preds=None):
+    preds = IX_PREDS if preds is None else preds
     counter = [0]
     pool = {"x": [], "e": [], "h": []}
 
     def var(sort):
+        sort = rng.choice(IX_SUBSORT[sort])
         if pool[sort] and rng.random() < 0.5:
             return rng.choice(pool[sort])
         counter[0] += rng.choice([1, 1, 2])
@@ -364,18 +413,19 @@ def gen_ix_mrs(rng):
     index = var(rng.choice("ex"))
     rels = []
     for _ in range(rng.choice([0, 1, 1, 2, 3, 4, 6])):
-        p = rng.choice(list(IX_PREDS))
-        syn = rng.choice(IX_PREDS[p])
+        p = rng.choice(list(preds))
+        syn = rng.choice(preds[p])
         roles = list(syn)
         while roles and roles[-1][2] and rng.random() < 0.5:
             roles.pop()
         args = []
-        for r, v, _o in roles:
+        for r, v, o in roles:
             if r == "CARG":
-                args.append([cps("CARG"), cps(gen_text(rng, allow_empty=False))])
+                if not o or rng.random() < 0.6:
+                    args.append([cps("CARG"), cps(gen_text(rng, allow_empty=False))])
             else:
                 args.append([cps(r), cps(var(v))])
-        if p == "yofc" or (p in ("_dog_n_1",) and rng.random() < 0.3):
+        if not any(r == "CARG" for r, _, _ in syn) and (p == "yofc" or rng.random() < 0.12):
             args.append([cps("CARG"), cps(gen_text(rng, allow_empty=False))])
         rng.shuffle(args)
         rels.append({"pred": cps(p), "label": cps(var("h")), "args": args,
@@ -396,15 +446,30 @@ def gen_ix_mrs(rng):
             "lnk": None, "surface": None, "ident": None}
 
 
-def ix_unambiguous(mj):
-    """the positional reading of every EP selects a synopsis with the EP's own roles (generator-side filter)."""
-    sub = {"u": "uipexh", "i": "iex", "p": "pxh", "e": "e", "x": "x", "h": "h", "string": ["string"]}
+def ix_unambiguous(mj, preds=None):
+    """the SEM-I `covers` the structure: for every EP the encoder finds a synopsis with all the EP's roles, and
+    the positional reading of what it writes selects a synopsis that gives the same role names back
+    (generator-side filter, written from the documented lookup: with a constant, first a synopsis that lists
+    CARG whose other roles fit the argument sorts in order; otherwise the first synopsis whose roles fit)."""
+    preds = IX_PREDS if preds is None else preds
+    sub = {"u": "uipexh", "i": "iex", "p": "pxh", "e": "e", "x": "x", "h": "h", "string": ()}
+
+    def fits(roles, ts):
+        if len(ts) > len(roles):
+            return False
+        for i, (r, v, o) in enumerate(roles):
+            if i < len(ts):
+                if ts[i] not in sub[v]:
+                    return False
+            elif not o:
+                return False
+        return True
     for e in mj["rels"]:
         p = uncps(e["pred"])
         have = {uncps(k): uncps(v) for k, v in e["args"]}
-        for syn in IX_PREDS[p]:
-            names = [r for r, _, _ in syn if r != "CARG"]
-            if set(have) - {"CARG"} <= set(names):
+        for syn in preds[p]:
+            names = [r for r, _, _ in syn]
+            if set(have) - {"CARG"} <= set(names) and len(set(have) - {"CARG"}) <= len(syn):
                 enc_syn = syn
                 break
         else:
@@ -412,29 +477,86 @@ def ix_unambiguous(mj):
         order = [r for r, _, _ in enc_syn if r in have and r != "CARG"]
         types = [have[r][0] for r in order]
         chosen = None
-        tries = [types + ["string"], types] if "CARG" in have else [types]
-        for ts in tries:
-            for syn in IX_PREDS[p]:
-                if len(ts) > len(syn):
-                    continue
-                okk = True
-                for i, (r, v, o) in enumerate(syn):
-                    if i < len(ts):
-                        if ts[i] not in sub[v]:
-                            okk = False
-                    elif not o:
-                        okk = False
-                if okk:
+        if "CARG" in have:
+            for syn in preds[p]:
+                roles = [x for x in syn if x[0] != "CARG"]
+                if len(roles) < len(syn) and fits(roles, types):
                     chosen = syn
                     break
-            if chosen is not None:
-                break
+        if chosen is None:
+            for syn in preds[p]:
+                if fits(syn, types):
+                    chosen = syn
+                    break
         if chosen is None:
             return False
         names = [r for r, _, _ in chosen if r != "CARG"]
         if names[:len(order)] != order:
             return False
     return True
+
+
+# ---- long documents: token streams longer than the lexer's 1024-token look-ahead buffer
+
+_LONG = None
+
+
+def long_cases():
+    """deterministic (fixed seed, the same in every run): for SimpleMRS and Indexed MRS, documents of > 1024 and
+    > 2048 lexer tokens in which the first token of some item lies d tokens after a multiple of 1024, for every
+    d in -3..3, and single structures of > 1024 and > 2048 tokens."""
+    global _LONG
+    if _LONG is not None:
+        return _LONG
+    import random
+    out = []
+    for codec in ("simple", "indexed"):
+        rng = random.Random(20260929)
+        lexer = simplemrs.SimpleMRSLexer if codec == "simple" else indexedmrs._IndexedMRSLexer
+        c = Codec(codec)
+        o = {"properties": True, "lnk": True}
+
+        def ntok(mj):
+            return sum(1 for _ in lexer.prelex(c.encode(m_from_wire(mj), **o).splitlines()))
+
+        def lead(k, j):
+            rels = [{"pred": cps("_rain_v_1"), "label": cps("h1"), "args": [[cps("ARG0"), cps("e2")]],
+                     "lnk": {"c": [0, 1]} if i < j else None, "surface": None, "base": None} for i in range(k)]
+            return {"top": cps("h0"), "index": cps("e2"), "rels": rels, "hcons": [], "icons": [], "vars": [],
+                    "lnk": None, "surface": None, "ident": None}
+        ordinary = []
+        while len(ordinary) < 90:
+            mj = gen_mrs(rng, "simple", size=rng.choice([1, 2, 2, 3])) if codec == "simple" else gen_ix_mrs(rng)
+            if codec == "indexed" and (not ix_unambiguous(mj) or not mj["rels"]):
+                continue
+            ordinary.append(mj)
+        counts = [ntok(mj) for mj in ordinary]
+        prefix = [0]
+        for n_ in counts:
+            prefix.append(prefix[-1] + n_)
+        achievable = {}
+        for k in range(0, 16):
+            for j in range(0, k + 1):
+                achievable.setdefault(ntok(lead(k, j)), (k, j))
+        for boundary in (1024, 2048):
+            for d in (-3, -2, -1, 0, 1, 2, 3):
+                target = boundary + d
+                for i in range(len(ordinary) - 1, 0, -1):
+                    need = target - prefix[i]
+                    if need in achievable:
+                        total = 0
+                        n_items = i + 1
+                        while n_items < len(ordinary) and need + prefix[n_items] < target + 200:
+                            n_items += 1
+                        out.append({"kind": "long", "codec": codec, "items": [lead(*achievable[need])] + ordinary[:n_items],
+                                    "props": True, "lnk": True, "boundary": boundary, "offset": d, "item": i + 1,
+                                    "tokens": need + prefix[n_items], "single": False})
+                        break
+        for k in (200, 340):
+            out.append({"kind": "long", "codec": codec, "items": [lead(k, 5)], "props": True, "lnk": True,
+                        "boundary": None, "offset": None, "tokens": ntok(lead(k, 5)), "single": True})
+    _LONG = out
+    return out
 
 
 # ------------------------------------------------------------------ the property, re-stated naively
@@ -518,10 +640,10 @@ def compare(codec, props, lnk, m, d):
 
 
 class Codec:
-    def __init__(self, name):
+    def __init__(self, name, preds=None):
         self.name = name
         self.mod = {"simple": simplemrs, "json": mrsjson, "mrx": mrx, "indexed": indexedmrs}[name]
-        self.kw = {"semi": ix_semi()} if name == "indexed" else {}
+        self.kw = {"semi": ix_semi(preds)} if name == "indexed" else {}
 
     def encode(self, m, **o):
         return self.mod.encode(m, **self.kw, **o)
@@ -606,24 +728,41 @@ class C01(Check):
     def teardown(self):
         shutil.rmtree(getattr(self, "tmp", ""), ignore_errors=True)
 
+    def codec_for(self, case, preds="case"):
+        """the codec of a case; Indexed MRS gets the SEM-I of the case (a fresh table per case)"""
+        if case["codec"] != "indexed":
+            return self.codecs[case["codec"]]
+        return Codec("indexed", case.get("semi") if preds == "case" else preds)
+
     # ---------------------------------------------------------------- cases
     def rt_case(self, rng, codec, n_items=None, size=None, family=None):
         k = n_items if n_items is not None else rng.choice([1, 1, 1, 1, 2, 3, 0])
         items = []
+        extra = {}
+
+        def ix_item(preds):
+            for _try in range(60):
+                mj = gen_ix_mrs(rng, preds)
+                if ix_unambiguous(mj, preds):
+                    return mj
+            return {"top": cps("h0"), "index": cps("e2"), "rels": [], "hcons": [], "icons": [], "vars": [],
+                    "lnk": None, "surface": None, "ident": None}
+        if codec == "indexed":
+            # a fresh SEM-I per case, and a second, disagreeing one used first in the same case ("pre")
+            preds = gen_ix_preds(rng) if rng.random() < 0.8 else {p: [list(map(list, sy)) for sy in sys_]
+                                                                   for p, sys_ in IX_PREDS.items()}
+            other = gen_ix_preds(rng)
+            extra = {"semi": preds, "pre": {"semi": other, "items": [ix_item(other) for _ in range(rng.choice([1, 2]))]}}
         for _ in range(k):
             if codec == "indexed":
-                for _try in range(50):
-                    mj = gen_ix_mrs(rng)
-                    if ix_unambiguous(mj):
-                        break
-                else:
-                    mj = {"top": cps("h0"), "index": cps("e2"), "rels": [], "hcons": [], "icons": [], "vars": [],
-                          "lnk": None, "surface": None, "ident": None}
+                mj = ix_item(extra["semi"])
             else:
                 mj = gen_mrs(rng, codec, size=size, pred_family=family)
             items.append(mj)
-        return {"kind": "rt", "codec": codec, "items": items, "props": rng.random() < 0.7, "lnk": rng.random() < 0.7,
+        case = {"kind": "rt", "codec": codec, "items": items, "props": rng.random() < 0.7, "lnk": rng.random() < 0.7,
                 "file": rng.random() < 0.15, "expressible": family != "unnormalised"}
+        case.update(extra)
+        return case
 
     def parse_case(self, rng):
         c = self.codecs["simple"]
@@ -675,6 +814,11 @@ class C01(Check):
                     yield self.rt_case(rng, codec, n_items=1, size=1, family=fam)
                     yield self.rt_case(rng, codec, n_items=2, size=2, family=fam)
                 yield self.rt_case(rng, codec, n_items=1, size=2, family="unnormalised")
+        for lc in long_cases():
+            yield lc
+            if lc["codec"] == "simple" and lc["offset"] == 0:
+                # the same document through the model's parser (item count and every structure)
+                yield {"kind": "parse", "text": cps(simplemrs.dumps([m_from_wire(j) for j in lc["items"]]))}
         for s in ["", "\\", "\"", "\\\"", "a\\", "\\\\", "\"\"", "a\"b\\c", "\\n", "x\\\n", "\n"]:
             yield {"kind": "esc", "s": cps(s)}
         for s in ["", "<0:5>", "<-1:-1>", "<0#5>", "<@7>", "<1 2 3>", "<>", "<", ">", "<1>", "<a:b>", "<1:2:3>", "0:5",
@@ -726,7 +870,7 @@ class C01(Check):
                 yield self.rt_case(rng, rng.choice(["simple", "mrx", "json"]), size=1)
 
     # ---------------------------------------------------------------- implementation
-    def inter(self, codec, m, props, lnk):
+    def inter(self, codec, m, props, lnk, semi=None):
         """the codec's intermediate form of m in wire shape"""
         if codec == "simple":
             return real_lex(simplemrs.encode(m, properties=props, lnk=lnk))
@@ -734,7 +878,7 @@ class C01(Check):
             return j_to_wire(json.loads(json.dumps(mrsjson.to_dict(m, properties=props, lnk=lnk))))
         if codec == "mrx":
             return xml_to_wire(etree.fromstring(mrx.encode(m, properties=props, lnk=lnk)))
-        return cps(indexedmrs.encode(m, ix_semi(), properties=props, lnk=lnk))
+        return cps(indexedmrs.encode(m, semi or ix_semi(), properties=props, lnk=lnk))
 
     def impl(self, case):
         k = case["kind"]
@@ -742,10 +886,11 @@ class C01(Check):
             if not case["items"]:
                 return {"empty": True}
             codec, props, lnk = case["codec"], case["props"], case["lnk"]
-            c = self.codecs[codec]
+            c = self.codec_for(case)
+            sm = c.kw.get("semi")
             try:
                 m = m_from_wire(case["items"][0])
-                first = self.inter(codec, m, props, lnk)
+                first = self.inter(codec, m, props, lnk, sm)
                 text = c.encode(m, properties=props, lnk=lnk)
             except Exception as e:
                 return {"err": errname(e)}
@@ -759,10 +904,12 @@ class C01(Check):
             if codec == "simple":
                 out["rest"] = 0
             try:
-                out[rekey] = self.inter(codec, d, props, lnk)
+                out[rekey] = self.inter(codec, d, props, lnk, sm)
             except Exception as e:
                 out[rekey] = {"err": errname(e)}
             return out
+        if k == "long":
+            return {"items": len(case["items"]), "tokens": case.get("tokens")}
         if k == "parse":
             text = uncps(case["text"])
             try:
@@ -891,16 +1038,43 @@ class C01(Check):
                     if back.type != l.type or back.data != l.data:
                         fail("Lnk(str(l)) != l", repr(str(l)))
             return fails
+        if k == "long":
+            return self.oracle_long(case)
         if k != "rt":
             return fails
         codec, props, lnk = case["codec"], case["props"], case["lnk"]
-        c = self.codecs[codec]
+        c = self.codec_for(case)
         expressible = case.get("expressible", True)
         if not expressible:
             return fails
         fresh = lambda: [m_from_wire(j) for j in case["items"]]   # noqa: E731
         ms = fresh()
         o = {"properties": props, "lnk": lnk}
+
+        # state across calls: another SEM-I (same predicate vocabulary, different synopses) is used first
+        pre_first = None
+        if case.get("pre"):
+            cp = self.codec_for(case, case["pre"]["semi"])
+            for j in case["pre"]["items"]:
+                try:
+                    t = cp.encode(m_from_wire(j), **o)
+                    d = cp.decode(t)
+                    if pre_first is None:
+                        pre_first = (t, m_to_wire(d))
+                    diffs = compare(codec, props, lnk, m_from_wire(j), d)
+                    if diffs:
+                        fail("%s (first SEM-I of the case): decoded structure differs from the original (%s)"
+                             % (codec, ", ".join(diffs)), t[:400])
+                except Exception as e:
+                    fail("%s (first SEM-I of the case): encode/decode raises" % codec, errname(e))
+        # purity: what the first encode and the first decode give before the battery of calls …
+        first_obs = None
+        if ms:
+            try:
+                t0 = c.encode(ms[0], **o)
+                first_obs = (t0, m_to_wire(c.decode(t0)))
+            except Exception:
+                first_obs = None
 
         def check_one(label, m, d, text, **enc):
             diffs = compare(codec, props, lnk, m, d)
@@ -1002,6 +1176,85 @@ class C01(Check):
         for j, m in zip(case["items"], ms):
             if m_to_wire(m) != m_to_wire(m_from_wire(j)):
                 fail("%s: encoding modified the MRS object" % codec, "")
+        # … purity: and after it (a fresh object, the same text): identical results
+        if first_obs is not None:
+            try:
+                t1 = c.encode(m_from_wire(case["items"][0]), **o)
+                if t1 != first_obs[0]:
+                    fail("%s purity: repeating the first encode after the other calls gives another text" % codec,
+                         repr((first_obs[0][:200], t1[:200])))
+                if m_to_wire(c.decode(first_obs[0])) != first_obs[1]:
+                    fail("%s purity: repeating the first decode after the other calls gives another structure"
+                         % codec, first_obs[0][:300])
+            except Exception as e:
+                fail("%s purity: repeating the first encode/decode raises" % codec, errname(e))
+        if pre_first is not None:
+            try:
+                cp = self.codec_for(case, case["pre"]["semi"])
+                if m_to_wire(cp.decode(pre_first[0])) != pre_first[1]:
+                    fail("%s purity: decoding under the first SEM-I again, after another SEM-I was used, gives "
+                         "another structure" % codec, pre_first[0][:300])
+            except Exception as e:
+                fail("%s purity: decoding under the first SEM-I again raises" % codec, errname(e))
+        return fails
+
+    # ---------------------------------------------------------------- long documents
+    def oracle_long(self, case):
+        fails = []
+
+        def fail(clause, detail):
+            fails.append({"clause": clause, "detail": detail})
+        codec, props, lnk = case["codec"], case["props"], case["lnk"]
+        c = self.codec_for(case)
+        o = {"properties": props, "lnk": lnk}
+        ms = [m_from_wire(j) for j in case["items"]]
+        n = len(ms)
+        own = []
+        for m in ms:          # each item's own round trip
+            try:
+                own.append(m_to_wire(c.decode(c.encode(m, **o))))
+            except Exception as e:
+                own.append({"err": errname(e)})
+                fail("%s long: decode(encode(item)) raises" % codec, errname(e))
+        if case.get("single"):
+            for m, w in zip(ms, own):
+                if "err" not in w:
+                    diffs = compare(codec, props, lnk, m, c.decode(c.encode(m, **o)))
+                    if diffs:
+                        fail("%s long: decoded structure differs from the original (%s)" % (codec, ", ".join(diffs)), "")
+            return fails
+
+        def check(label, ds):
+            if len(ds) != n:
+                fail("%s long document %s: %d items written, %d read back" % (codec, label, n, len(ds)),
+                     "first item starts %r tokens from a multiple of 1024" % (case.get("offset"),))
+                return
+            for i, (m, d, w) in enumerate(zip(ms, ds, own)):
+                if m_to_wire(d) != w:
+                    fail("%s long document %s: an item differs from its own round trip" % (codec, label), "item %d" % i)
+                elif compare(codec, props, lnk, m, d):
+                    fail("%s long document %s: decoded structure differs from the original" % (codec, label),
+                         "item %d: %s" % (i, compare(codec, props, lnk, m, d)))
+        for ind in (False, True):
+            try:
+                text = c.dumps(ms, **o, indent=ind)
+                check("dumps/loads indent=%r" % ind, c.loads(text))
+            except Exception as e:
+                fail("%s long document dumps/loads raises" % codec, "%s indent=%r" % (errname(e), ind))
+                continue
+            try:
+                buf = io.StringIO()
+                c.dump(ms, buf, **o, indent=ind)
+                buf.seek(0)
+                check("dump/load (file object) indent=%r" % ind, c.load(buf))
+            except Exception as e:
+                fail("%s long document dump/load (file object) raises" % codec, "%s indent=%r" % (errname(e), ind))
+        fn = os.path.join(self.tmp, "long.txt")
+        try:
+            c.dump(ms, fn, **o, indent=False)
+            check("dump/load (filename)", c.load(fn))
+        except Exception as e:
+            fail("%s long document dump/load (filename) raises" % codec, errname(e))
         return fails
 
     def classify(self, case, failure):
@@ -1010,7 +1263,7 @@ class C01(Check):
     # ---------------------------------------------------------------- evidence
     def nontrivial_key(self, case, res):
         k = case["kind"]
-        if k == "rt":
+        if k in ("rt", "long"):
             if not any(mj["rels"] for mj in case["items"]):
                 return None
         elif not (case.get("s") or case.get("text")):
@@ -1055,6 +1308,12 @@ class C01(Check):
                 if isinstance(res.get("toks"), list):
                     for t in res["toks"]:
                         inc("tok:" + t[0])
+        elif k == "long":
+            inc("long:%s:%s" % (case["codec"], "single" if case.get("single") else
+                                "boundary%s%+d" % (case["boundary"], case["offset"])))
+            inc("long:tokens>1024" if (case.get("tokens") or 0) > 1024 else "long:tokens<=1024")
+            if (case.get("tokens") or 0) > 2048:
+                inc("long:tokens>2048")
         elif k == "parse" and isinstance(res, dict):
             if res.get("lexerr"):
                 inc("parse:lexer-error")
